@@ -329,6 +329,14 @@ func (t *transitiveClosure) hasOption(
 	}
 	fullName := fieldDescriptor.FullName()
 	descriptor := imageIndex.ByName[fullName].element
+	if descriptor == nil {
+		// The option is not defined in this image, i.e. it was filtered out earlier.
+		return false
+	}
+	if extension, ok := descriptor.(*descriptorpb.FieldDescriptorProto); ok && t.isFieldTypeExcluded(extension, imageIndex) {
+		// The option's type is excluded, so the option itself will be dropped.
+		return false
+	}
 	switch mode := t.elements[descriptor]; mode {
 	case inclusionModeExplicit, inclusionModeImplicit, inclusionModeEnclosing:
 		return true
